@@ -290,6 +290,7 @@ type sigCase struct {
 	V0, V1  []string // symbols per slot
 	Vectors int      // how many vectors the matrix carries (2 normally)
 	Dup     bool     // the container whose vector 0 lists member 0 twice: [m0, m0, m1, m2]
+	Hist    bool     // the container with a roster history: one vector, REP 1, members {m1, m2} after {m0..m3}; m3 pending
 }
 
 type SigGrid struct {
@@ -344,6 +345,18 @@ func (d *SigGrid) Build() *World {
 			w.Invoke(h, al, "commitContainerListUpdate", cid, []any{int64(r0), int64(r1)})
 		}
 	}
+	// a container with a roster history: {m0..m3} committed, then {m1,m2} committed, then m3 only pending - members
+	// removed by the latest commit and members that are merely pending do not sign
+	{
+		cid := d.cidHist()
+		m := d.mem[0]
+		pk := func(i int) []byte { return m[i].PublicKey().Bytes() }
+		w.Invoke(h, al, "addNextEpochNodes", cid, int64(0), []any{pk(0), pk(1), pk(2), pk(3)})
+		w.Invoke(h, al, "commitContainerListUpdate", cid, []any{int64(1)})
+		w.Invoke(h, al, "addNextEpochNodes", cid, int64(0), []any{pk(1), pk(2)})
+		w.Invoke(h, al, "commitContainerListUpdate", cid, []any{int64(1)})
+		w.Invoke(h, al, "addNextEpochNodes", cid, int64(0), []any{pk(3)})
+	}
 	// containers whose vector 0 lists member 0 twice (a member counts once, wherever it is listed)
 	for r0 := 1; r0 <= 3; r0++ {
 		cid := d.cidDup(r0)
@@ -358,6 +371,11 @@ func (d *SigGrid) Build() *World {
 	}
 	w.Freeze()
 	return w
+}
+
+func (d *SigGrid) cidHist() []byte {
+	h := sha256.Sum256([]byte("sig-container-history"))
+	return h[:]
 }
 
 func (d *SigGrid) cidDup(r0 int) []byte {
@@ -383,7 +401,7 @@ func (d *SigGrid) metaBytes(w *World, cid []byte, size int64) []byte {
 }
 
 func (d *SigGrid) Cases(tier string) []GridCase {
-	syms := []string{"m0", "m1", "m2", "m0same", "m0again", "out", "x0"}
+	syms := []string{"m0", "m1", "m2", "m0same", "m0again", "out", "x0", "m0other"}
 	maxR0 := 3
 	if tier == "thorough" {
 		syms = []string{"m0", "m1", "m2", "m3", "m0same", "m0again", "out", "m0other", "junk", "x0", "x1"}
@@ -418,6 +436,10 @@ func (d *SigGrid) Cases(tier string) []GridCase {
 		for slots := 0; slots <= r0+1; slots++ {
 			rec(nil, slots, func(v0 []string) { add(sigCase{R0: r0, R1: 1, V0: v0, V1: honest(1), Vectors: 2}) })
 		}
+	}
+	// the container with a roster history: every single-slot and two-slot matrix over the members
+	for _, row := range [][]string{{"m0"}, {"m1"}, {"m2"}, {"m3"}, {"m0", "m3"}, {"m3", "m1"}, {"m0", "m0again"}, {}} {
+		out = append(out, GridCase{Name: fmt.Sprintf("roster history ({m0..m3} -> {m1,m2}, m3 pending) REP=1 v0=%v", row), Data: sigCase{R0: 1, R1: 0, V0: row, Vectors: 1, Hist: true}})
 	}
 	// the roster that lists member 0 twice: every vector-0 matrix over the first symbols
 	for r0 := 1; r0 <= 3; r0++ {
@@ -489,6 +511,9 @@ func (d *SigGrid) Eval(x *Exec, root *Node, gc GridCase) GridResult {
 	if c.Dup {
 		cid = d.cidDup(c.R0)
 	}
+	if c.Hist {
+		cid = d.cidHist()
+	}
 	msg := d.metaBytes(w, cid, 7)
 	other := d.metaBytes(w, cid, 8)
 	rows := [][]string{c.V0, c.V1}[:c.Vectors]
@@ -496,7 +521,11 @@ func (d *SigGrid) Eval(x *Exec, root *Node, gc GridCase) GridResult {
 	truthOK := true
 	anyValid := false
 	reps := []int{c.R0, c.R1}
-	for v := 0; v < 2; v++ {
+	nv := 2
+	if c.Hist {
+		nv = 1 // one placement vector
+	}
+	for v := 0; v < nv; v++ {
 		distinct := map[string]bool{} // by key: a member listed twice is one member
 		if v < len(rows) {
 			var row []any
@@ -505,6 +534,9 @@ func (d *SigGrid) Eval(x *Exec, root *Node, gc GridCase) GridResult {
 				row = append(row, sg)
 				hs := sha256.Sum256(msg)
 				for mi, k := range d.mem[v] {
+					if c.Hist && mi != 1 && mi != 2 {
+						continue // the committed roster of the history container is {m1, m2}
+					}
 					if k.PublicKey().Verify(sg, hs[:]) {
 						_ = mi
 						distinct[string(k.PublicKey().Bytes())] = true
